@@ -76,6 +76,7 @@ class Interp:
         self.frames = []      # return collectors of inlined helper calls
         self.callsites = []   # text of the helper calls being inlined (innermost last)
         self.inlined = set()
+        self.loops = []       # continue / break collectors of the loops being interpreted (innermost last)
 
     # ------------------------------------------------------------------ helper inlining
     def inlinable(self, call):
@@ -213,6 +214,8 @@ class Interp:
             if f == 'gambit.query.query_parse':
                 self.sink(e, f, st, [Val('sig', 'DB')])
                 return OTHER
+            if isinstance(e.func, ast.Attribute) and isinstance(e.func.value, ast.Name) and st.env.get(e.func.value.id, UNKNOWN).kind == 'seq':
+                st.env[e.func.value.id] = OTHER      # e.g. xs.append(...): the literal contents are no longer the whole story
             if callee_attr(e) == 'export' or f.endswith('dump_dmat_csv') or f.endswith('dump_signatures') or f.endswith('Phylo.write'):
                 self.outputs.append((e, st))
             for a in e.args:
@@ -224,10 +227,33 @@ class Interp:
         if isinstance(e, ast.IfExp):
             return OTHER
         if isinstance(e, (ast.Tuple, ast.List)):
-            for x in e.elts:
-                self.ev(x, st)
-            return OTHER
+            vals = [self.ev(x.value if isinstance(x, ast.Starred) else x, st) for x in e.elts]
+            if any(isinstance(x, ast.Starred) for x in e.elts):
+                return OTHER
+            return Val('seq', tuple(vals))      # a literal sequence: its elements are known one by one
         return OTHER
+
+    def evs(self, e, st):
+        """[(value, state)]: like ev, but a conditional expression is the two-armed `if` it abbreviates (one state per arm)."""
+        if isinstance(e, ast.IfExp):
+            out = []
+            for (tv, s2) in self.cond(e.test, st):
+                out += self.evs(e.body if tv else e.orelse, s2)
+            return out
+        return [(self.ev(e, st), st)]
+
+    def bind(self, target, val, st):
+        """Bind an assignment / loop target to an abstract value (element-wise for a literal sequence of the same length)."""
+        if isinstance(target, ast.Name):
+            st.env[target.id] = val
+        elif isinstance(target, (ast.Tuple, ast.List)):
+            elts = target.elts
+            if val.kind == 'seq' and len(val.ent) == len(elts) and not any(isinstance(t, ast.Starred) for t in elts):
+                for t, v in zip(elts, val.ent):
+                    self.bind(t, v, st)
+            else:
+                for t in elts:
+                    self.bind(t.value if isinstance(t, ast.Starred) else t, OTHER, st)
 
     def sink(self, call, f, st, vals):
         ents = []
@@ -337,11 +363,11 @@ class Interp:
             self.raises.append((s, st))
             return []
         if isinstance(s, ast.Return):
-            v = self.ev(s.value, st) if s.value is not None else NONE
-            if self.frames:
-                self.frames[-1].append((v, st))
-                return []
-            self.paths += 1
+            for v, s2 in (self.evs(s.value, st) if s.value is not None else [(NONE, st)]):
+                if self.frames:
+                    self.frames[-1].append((v, s2))
+                else:
+                    self.paths += 1
             return []
         if isinstance(s, ast.Assert):
             outs = []
@@ -353,17 +379,12 @@ class Interp:
             return outs
         if isinstance(s, ast.Assign):
             target = self.inlinable(s.value) if isinstance(s.value, ast.Call) else None
-            outcomes = self.inline(s.value, target, st) if target is not None else [(self.ev(s.value, st), st)]
+            outcomes = self.inline(s.value, target, st) if target is not None else self.evs(s.value, st)
             outs = []
             for val, st1 in outcomes:
                 st1 = st1.copy()
                 for t in s.targets:
-                    if isinstance(t, ast.Name):
-                        st1.env[t.id] = val
-                    elif isinstance(t, (ast.Tuple, ast.List)):
-                        for el in t.elts:
-                            if isinstance(el, ast.Name):
-                                st1.env[el.id] = OTHER
+                    self.bind(t, val, st1)
                 outs.append(st1)
             return outs
         if isinstance(s, ast.AnnAssign):
@@ -379,6 +400,35 @@ class Interp:
             return [st]
         if isinstance(s, (ast.Pass, ast.Import, ast.ImportFrom, ast.FunctionDef)):
             return [st]
+        if isinstance(s, (ast.Continue, ast.Break)):
+            if not self.loops:
+                raise Undecided(f'{self.fi.qualname}: {type(s).__name__.lower()} outside a loop at line {s.lineno}')
+            self.loops[-1]['cont' if isinstance(s, ast.Continue) else 'brk'].append(st)
+            return []
+        if isinstance(s, ast.For):
+            rows = self.ev(s.iter, st)
+            if rows.kind == 'seq':
+                # a loop over a literal sequence is the body repeated once per element, in order, with the targets bound to that
+                # element; `continue` ends the repetition, `break` the loop (skipping its else clause)
+                cur, broken = [st], []
+                for row in rows.ent:
+                    nxt = []
+                    for s0 in cur:
+                        s1 = s0.copy()
+                        self.bind(s.target, row, s1)
+                        self.loops.append(dict(cont=[], brk=[]))
+                        try:
+                            ends = self.block(s.body, [s1])
+                        finally:
+                            fr = self.loops.pop()
+                        nxt += ends + fr['cont']
+                        broken += fr['brk']
+                    cur = nxt
+                    if len(cur) > MAX_PATHS:
+                        raise Undecided(f'{self.fi.qualname}: more than {MAX_PATHS} abstract paths')
+                if s.orelse:
+                    cur = self.block(s.orelse, cur)
+                return cur + broken
         if isinstance(s, (ast.For, ast.While)):
             # reporting loops: body executed zero or one time (no state that matters is loop-carried: checked)
             for x in stmts_in(s.body):
@@ -387,10 +437,18 @@ class Interp:
                         for n in ast.walk(t):
                             if isinstance(n, ast.Name) and st.env.get(n.id, UNKNOWN).kind in ('sig', 'kspec', 'kspec?', 'db'):
                                 raise Undecided(f'{self.fi.qualname}: loop rebinds a signature/parameter variable ({n.id})')
+            first = st.copy()
             if isinstance(s, ast.For):
-                self.ev(s.iter, st)
-            once = self.block(s.body, [st.copy()])
-            return [st] + once
+                self.bind(s.target, OTHER, first)
+            self.loops.append(dict(cont=[], brk=[]))
+            try:
+                once = self.block(s.body, [first])
+            finally:
+                fr = self.loops.pop()
+            after = [st] + once + fr['cont']
+            if s.orelse:
+                after = self.block(s.orelse, after)
+            return after + fr['brk']
         if isinstance(s, ast.With):
             for it in s.items:
                 self.ev(it.context_expr, st)
@@ -411,6 +469,218 @@ class Interp:
         ends = self.block(self.fi.node.body, [st])
         self.paths += len(ends)
         return self
+
+
+# ---------------------------------------------------------------------- option table of kspec_from_params (P3)
+class OV:
+    """Value of the option-table evaluator: none | given:<param> | const:<python value> | default (DEFAULT_KMERSPEC) |
+    kmerspec:(args) | opaque (text, parameters it derives from)."""
+    __slots__ = ('kind', 'v', 'deps')
+
+    def __init__(self, kind, v=None, deps=frozenset()):
+        self.kind, self.v, self.deps = kind, v, frozenset(deps)
+
+    def __repr__(self):
+        if self.kind == 'kmerspec':
+            return 'KmerSpec(' + ', '.join(map(repr, self.v)) + ')'
+        if self.kind == 'const':
+            return repr(self.v)
+        if self.kind == 'none':
+            return 'None'
+        if self.kind == 'default':
+            return 'DEFAULT_KMERSPEC'
+        if self.kind == 'given':
+            return f'<{self.v}>'
+        return f'<value from {sorted(self.deps)}>' if self.deps else '<value>'
+
+
+class OptionTable:
+    """Finite-domain evaluation of an option-parsing function: every parameter is None or given (flags True/False), every
+    abstract path is followed (a test the domain cannot decide forks), the outcome of each path is `return <value>` or
+    `raise <class>`.  Decides the rule by what the function does for each combination, not by how the tests are written."""
+
+    def __init__(self, m, fi):
+        self.m, self.fi = m, fi
+
+    def opaque(self, e, *vals):
+        deps = set()
+        for v in vals:
+            deps |= v.deps
+        return OV('opaque', u(e)[:40], deps)
+
+    def ev(self, e, env):
+        if isinstance(e, ast.Constant):
+            return OV('none') if e.value is None else OV('const', e.value)
+        if isinstance(e, ast.Name):
+            if e.id in env:
+                return env[e.id]
+            if self.m.resolve(self.fi.module, e) == 'gambit.kmers.DEFAULT_KMERSPEC':
+                return OV('default')
+            return OV('opaque', e.id)
+        if isinstance(e, ast.Attribute):
+            if self.m.resolve(self.fi.module, e) == 'gambit.kmers.DEFAULT_KMERSPEC':
+                return OV('default')
+            return self.opaque(e, self.ev(e.value, env))
+        if isinstance(e, ast.UnaryOp) and isinstance(e.op, ast.Not):
+            t = self.truth(self.ev(e.operand, env))
+            return OV('const', not t) if t is not None else self.opaque(e, self.ev(e.operand, env))
+        if isinstance(e, ast.BoolOp):
+            is_and = isinstance(e.op, ast.And)
+            seen = []
+            for x in e.values:
+                v = self.ev(x, env)
+                t = self.truth(v)
+                if t is None:
+                    seen.append(v)
+                    continue
+                if t != is_and:          # decides the whole expression unless an undecidable operand came first
+                    return v if not seen else self.opaque(e, *seen, v)
+            return self.opaque(e, *seen) if seen else OV('const', is_and)
+        if isinstance(e, ast.Compare) and len(e.ops) == 1:
+            l, r, op = self.ev(e.left, env), self.ev(e.comparators[0], env), e.ops[0]
+            if isinstance(op, (ast.Is, ast.IsNot)) and 'none' in (l.kind, r.kind):
+                o = r if l.kind == 'none' else l
+                if o.kind != 'opaque':
+                    return OV('const', (o.kind == 'none') == isinstance(op, ast.Is))
+            if l.kind == r.kind == 'const':
+                try:
+                    return OV('const', {ast.Eq: l.v == r.v, ast.NotEq: l.v != r.v, ast.Lt: l.v < r.v, ast.LtE: l.v <= r.v, ast.Gt: l.v > r.v, ast.GtE: l.v >= r.v,
+                                        ast.Is: l.v is r.v, ast.IsNot: l.v is not r.v}[type(op)])
+                except (KeyError, TypeError):
+                    pass
+            return self.opaque(e, l, r)
+        if isinstance(e, ast.BinOp):
+            l, r = self.ev(e.left, env), self.ev(e.right, env)
+            if l.kind == r.kind == 'const' and isinstance(l.v, (bool, int)) and isinstance(r.v, (bool, int)) and isinstance(e.op, (ast.Add, ast.Sub, ast.Mult)):
+                return OV('const', l.v + r.v if isinstance(e.op, ast.Add) else l.v - r.v if isinstance(e.op, ast.Sub) else l.v * r.v)
+            return self.opaque(e, l, r)
+        if isinstance(e, ast.IfExp):
+            tv = self.ev(e.test, env)
+            t = self.truth(tv)
+            if t is None:
+                return self.opaque(e, tv, self.ev(e.body, env), self.ev(e.orelse, env))
+            return self.ev(e.body if t else e.orelse, env)
+        if isinstance(e, ast.Call):
+            args = [self.ev(a.value if isinstance(a, ast.Starred) else a, env) for a in e.args] + [self.ev(k.value, env) for k in e.keywords]
+            f = self.m.resolve_call(self.fi, e) or ''
+            if f == 'gambit.kmers.KmerSpec' and not e.keywords and not any(isinstance(a, ast.Starred) for a in e.args):
+                return OV('kmerspec', tuple(args), set().union(*[a.deps for a in args]) if args else ())
+            if u(e.func) in ('int', 'bool', 'sum', 'len') and all(a.kind == 'const' for a in args) and len(args) == 1 and u(e.func) != 'len':
+                try:
+                    return OV('const', {'int': int, 'bool': bool, 'sum': sum}[u(e.func)](args[0].v))
+                except Exception:
+                    pass
+            base = [self.ev(e.func.value, env)] if isinstance(e.func, ast.Attribute) else []
+            return self.opaque(e, *args, *base)
+        if isinstance(e, (ast.Tuple, ast.List)):
+            vals = [self.ev(x, env) for x in e.elts if not isinstance(x, ast.Starred)]
+            if len(vals) == len(e.elts) and all(v.kind == 'const' for v in vals):
+                return OV('const', tuple(v.v for v in vals))
+            return self.opaque(e, *vals)
+        return OV('opaque', u(e)[:40], set().union(*[env[n.id].deps for n in ast.walk(e) if isinstance(n, ast.Name) and n.id in env]))
+
+    @staticmethod
+    def truth(v):
+        if v.kind == 'none':
+            return False
+        if v.kind == 'const':
+            return bool(v.v)
+        return None      # a given option value (0, '') / an object: not decided here
+
+    def forks(self, test, env):
+        t = self.truth(self.ev(test, env))
+        return [t] if t is not None else [True, False]
+
+    def block(self, stmts, env):
+        """[(kind, payload, env)] with kind in fall / return / raise."""
+        states = [env]
+        outs = []
+        for s in stmts:
+            nxt = []
+            for e in states:
+                for kind, payload, e2 in self.stmt(s, e):
+                    if kind == 'fall':
+                        nxt.append(e2)
+                    else:
+                        outs.append((kind, payload, e2))
+            states = nxt
+            if len(states) + len(outs) > 4096:
+                raise Undecided(f'{self.fi.qualname}: too many abstract paths in the option table')
+        return outs + [('fall', None, e) for e in states]
+
+    def stmt(self, s, env):
+        if isinstance(s, ast.If):
+            out = []
+            for t in self.forks(s.test, env):
+                out += self.block(s.body if t else s.orelse, dict(env))
+            return out
+        if isinstance(s, ast.Return):
+            return [('return', (self.ev(s.value, env) if s.value is not None else OV('none'), s), env)]
+        if isinstance(s, ast.Raise):
+            rc = None
+            if s.exc is not None:
+                ex = s.exc.func if isinstance(s.exc, ast.Call) else s.exc
+                rc = self.m.resolve(self.fi.module, ex) or u(ex)
+            return [('raise', (rc, s), env)]
+        if isinstance(s, (ast.Assign, ast.AnnAssign, ast.AugAssign)):
+            env = dict(env)
+            if isinstance(s, ast.AugAssign):
+                v = self.ev(ast.BinOp(left=ast.Name(id=u(s.target), ctx=ast.Load()), op=s.op, right=s.value), env) if isinstance(s.target, ast.Name) else OV('opaque', u(s))
+                targets = [s.target]
+            else:
+                if s.value is None:
+                    return [('fall', None, env)]
+                v = self.ev(s.value, env)
+                targets = s.targets if isinstance(s, ast.Assign) else [s.target]
+            for t in targets:
+                if isinstance(t, ast.Name):
+                    env[t.id] = v
+                else:
+                    for n in ast.walk(t):
+                        if isinstance(n, ast.Name) and isinstance(n.ctx, ast.Store):
+                            env[n.id] = OV('opaque', u(s.value)[:40] if getattr(s, 'value', None) is not None else n.id, v.deps)
+            return [('fall', None, env)]
+        if isinstance(s, ast.Assert):
+            out = []
+            for t in self.forks(s.test, env):
+                out.append(('fall', None, env) if t else ('raise', ('AssertionError', s), env))
+            return out
+        if isinstance(s, (ast.Expr, ast.Pass, ast.Import, ast.ImportFrom)):
+            return [('fall', None, env)]
+        if isinstance(s, ast.Try):
+            out = []
+            for kind, payload, e2 in self.block(s.body, dict(env)):
+                if kind == 'fall' and s.orelse:
+                    out += self.block(s.orelse, e2)
+                else:
+                    out.append((kind, payload, e2))
+            # any call in the body may raise: every handler is entered with the bindings of the body unknown
+            henv = dict(env)
+            for x in stmts_in(s.body):
+                for t in (x.targets if isinstance(x, ast.Assign) else []):
+                    for n in ast.walk(t):
+                        if isinstance(n, ast.Name):
+                            henv[n.id] = OV('opaque', n.id, set().union(*[v.deps for v in env.values()]))
+            for h in s.handlers:
+                e3 = dict(henv)
+                if h.name:
+                    e3[h.name] = OV('opaque', h.name)
+                out += self.block(h.body, e3)
+            if s.finalbody:
+                res = []
+                for kind, payload, e2 in out:
+                    for k2, p2, e3 in self.block(s.finalbody, e2):
+                        res.append((kind, payload, e3) if k2 == 'fall' else (k2, p2, e3))
+                out = res
+            return out
+        raise Undecided(f'{self.fi.qualname}: {type(s).__name__} statement at line {s.lineno} is outside the option-table evaluator')
+
+    def outcomes(self, binding):
+        """[(kind, payload)] for one combination {param: OV}; falling off the end returns None."""
+        res = []
+        for kind, payload, _ in self.block(self.fi.node.body, dict(binding)):
+            res.append(('return', (OV('none'), None)) if kind == 'fall' else (kind, payload))
+        return res
 
 
 def is_click_command(fi):
@@ -505,22 +775,41 @@ def check_summaries(ctx):
     # P3 kspec_from_params
     fk = m.func('gambit.cli.common.kspec_from_params')
     rep.functions.add(fk.qualname)
-    gm = guard_map(fk.node)
     kp, pp = fk.params()[:2]
-    rs = [s for s in stmts_in(fk.node.body) if isinstance(s, ast.Raise)]
-    one = [r for r in rs if any(isinstance(t, ast.BoolOp) and isinstance(t.op, ast.Or) and {u(v) for v in t.values} == {f'{pp} is None', f'{kp} is None'} and p for (t, p) in gm[r])]
-    okone = len(one) == 1 and m.resolve(fk.module, one[0].exc.func) in CLICK_ERRORS
-    rep.add('P3', fk.site(one[0] if one else None), '-k and --prefix must be given together (exactly one given is an error)', okone, expected='raise click.ClickException under (prefix is None or k is None) after the both-None exit',
-            found=[u(r)[:60] for r in rs][:3], stmt='both-or-neither')
-    rets = [s for s in stmts_in(fk.node.body) if isinstance(s, ast.Return)]
-    none_ret = [r for r in rets if path_atoms(gm[r]) >= {('is', 'None', pp), ('is', 'None', kp)}]
-    okn = len(none_ret) == 1 and isinstance(none_ret[0].value, ast.IfExp) and u(none_ret[0].value.test) == 'default' and is_none(none_ret[0].value.orelse) \
-        and m.resolve(fk.module, none_ret[0].value.body) == 'gambit.kmers.DEFAULT_KMERSPEC'
-    rep.add('P3', fk.site(none_ret[0] if none_ret else None), 'no explicit parameters: None (caller decides) unless the caller asked for the default', okn, expected='return DEFAULT_KMERSPEC if default else None',
-            found=[u(r.value) for r in none_ret], stmt='no parameters')
-    final = [r for r in rets if r not in none_ret]
-    okf = len(final) == 1 and isinstance(final[0].value, ast.Call) and m.resolve_call(fk, final[0].value) == 'gambit.kmers.KmerSpec' and u(final[0].value.args[0]) == kp
-    rep.add('P3', fk.site(final[0] if final else None), 'explicit parameters become the KmerSpec of exactly that k and prefix', okf, expected=f'KmerSpec({kp}, <prefix bytes>)', found=[u(r.value) for r in final], stmt='explicit parameters')
+    rep.require('default' in fk.params(), 'kspec_from_params: no `default` flag parameter')
+    # what the function does for each of the 2 x 2 x 2 combinations (k given?, prefix given?, default flag), every abstract path
+    tab = OptionTable(m, fk)
+    combos = {}
+    for kg in (False, True):
+        for pg in (False, True):
+            for df in (False, True):
+                binding = {kp: OV('given', kp, {kp}) if kg else OV('none'), pp: OV('given', pp, {pp}) if pg else OV('none'), 'default': OV('const', df)}
+                for extra in fk.params():
+                    binding.setdefault(extra, OV('opaque', extra))
+                combos[(kg, pg, df)] = tab.outcomes(binding)
+
+    def show(c, o):
+        kind, (v, st) = o
+        return f'-k {"given" if c[0] else "absent"}, --prefix {"given" if c[1] else "absent"}, default={c[2]}: {kind}s {v}'
+
+    def site_of(outs):
+        st = next((o[1][1] for o in outs if o[1][1] is not None), None)
+        return fk.site(st)
+    one = [(c, o) for c, outs in combos.items() if c[0] != c[1] for o in outs]
+    bad = [(c, o) for (c, o) in one if not (o[0] == 'raise' and o[1][0] in CLICK_ERRORS)]
+    rep.add('P3', site_of([o for _, o in (bad or one)]), '-k and --prefix must be given together (exactly one given is an error)', bool(one) and not bad,
+            expected='raise click.ClickException on every path with exactly one of -k / --prefix', found=[show(c, o) for c, o in bad][:3] or 'ok', stmt='both-or-neither')
+    nonep = [(c, o) for c, outs in combos.items() if not c[0] and not c[1] for o in outs]
+    bad = [(c, o) for (c, o) in nonep if not (o[0] == 'return' and o[1][0].kind == ('default' if c[2] else 'none'))]
+    rep.add('P3', site_of([o for _, o in (bad or nonep)]), 'no explicit parameters: None (caller decides) unless the caller asked for the default', bool(nonep) and not bad,
+            expected='return DEFAULT_KMERSPEC if default else None', found=[show(c, o) for c, o in bad][:3] or 'ok', stmt='no parameters')
+    both = [(c, o) for c, outs in combos.items() if c[0] and c[1] for o in outs if o[0] == 'return']
+
+    def is_spec(v):
+        return v.kind == 'kmerspec' and len(v.v) == 2 and v.v[0].kind == 'given' and v.v[0].v == kp and v.v[1].deps == {pp} and v.v[1].kind in ('given', 'opaque')
+    bad = [(c, o) for (c, o) in both if not is_spec(o[1][0])]
+    rep.add('P3', site_of([o for _, o in (bad or both)]), 'explicit parameters become the KmerSpec of exactly that k and prefix', bool(both) and not bad, expected=f'KmerSpec({kp}, <prefix bytes>)',
+            found=[show(c, o) for c, o in bad][:3] or ('ok' if both else 'no path returns a value'), stmt='explicit parameters')
     d = fk.param_default('default')
     rep.add('P3', fk.site(), 'callers get None, not silently the default, unless they ask', d is not None and is_const(d, False), expected='default=False', found=u(d), stmt='default flag')
     # signatures create
@@ -582,6 +871,8 @@ _G3 = """		if ref_sigs is not None and ref_sigs.kmerspec != kspec:
 				f'K-mer search parameters from command line options ({fmt_kspec(kspec)}) do not '
 				f'match those of reference signatures ({fmt_kspec(ref_sigs.kmerspec)}).')
 """
+_CHAIN = "\t\tif query_sigs is not None:\n\t\t\tkspec = query_sigs.kmerspec\n\t\telif ref_sigs is not None:\n\t\t\tkspec = ref_sigs.kmerspec\n\t\telse:\n\t\t\tkspec = DEFAULT_KMERSPEC\n"
+_KFP = "\tif prefix is None and k is None:\n\t\treturn DEFAULT_KMERSPEC if default else None\n\n\tif prefix is None or k is None:\n\t\traise click.ClickException('Must specify values for both -k and --prefix arguments.')\n"
 VARIANTS = [
     V('query -s guard removed (the repaired defect)', 'B', _Q, "\t\tif sigs.kmerspec != db.signatures.kmerspec:\n", "\t\tif False:\n", 'P1'),
     V('dist guard 1 removed', 'B', _D, _G1, "", 'P1'),
@@ -601,4 +892,29 @@ VARIANTS = [
     V('E: comparison operands commuted', 'E', _D, "if ref_sigs is not None and ref_sigs.kmerspec != kspec:", "if ref_sigs is not None and kspec != ref_sigs.kmerspec:"),
     V('E: guard 1 as nested ifs', 'E', _D, "\t\tif query_sigs is not None and ref_sigs is not None and query_sigs.kmerspec != ref_sigs.kmerspec:\n\t\t\traise click.ClickException(\n\t\t\t\tf'K-mer search parameters of query signatures ({fmt_kspec(query_sigs.kmerspec)}) do '\n\t\t\t\tf'not match those of reference signatures ({fmt_kspec(ref_sigs.kmerspec)}).'\n\t\t\t)\n",
       "\t\tif query_sigs is not None and ref_sigs is not None:\n\t\t\tif not (query_sigs.kmerspec == ref_sigs.kmerspec):\n\t\t\t\traise click.ClickException('K-mer search parameters differ')\n"),
+    # ---- idioms accepted since the refactoring round, each with its broken twin
+    V('E: explicit-option guards as one loop over the literal (name, signatures) pairs with continue', 'E', _D, _G2 + _G3,
+      "\t\tfor which, sigs in [('query', query_sigs), ('reference', ref_sigs)]:\n\t\t\tif sigs is None or sigs.kmerspec == kspec:\n\t\t\t\tcontinue\n"
+      "\t\t\traise click.ClickException(f'K-mer search parameters from command line options ({fmt_kspec(kspec)}) do not match those of {which} signatures ({fmt_kspec(sigs.kmerspec)}).')\n"),
+    V('loop over the pairs stops at the first absent source (break for continue): reference unchecked', 'B', _D, _G2 + _G3,
+      "\t\tfor which, sigs in [('query', query_sigs), ('reference', ref_sigs)]:\n\t\t\tif sigs is None:\n\t\t\t\tbreak\n\t\t\tif sigs.kmerspec == kspec:\n\t\t\t\tcontinue\n"
+      "\t\t\traise click.ClickException(f'K-mer search parameters from command line options ({fmt_kspec(kspec)}) do not match those of {which} signatures ({fmt_kspec(sigs.kmerspec)}).')\n", 'P'),
+    V('loop over the pairs lists the query signatures twice', 'B', _D, _G2 + _G3,
+      "\t\tfor which, sigs in [('query', query_sigs), ('reference', query_sigs)]:\n\t\t\tif sigs is None or sigs.kmerspec == kspec:\n\t\t\t\tcontinue\n"
+      "\t\t\traise click.ClickException(f'K-mer search parameters from command line options ({fmt_kspec(kspec)}) do not match those of {which} signatures ({fmt_kspec(sigs.kmerspec)}).')\n", 'P'),
+    V('E: pairs bound to a local first, loop with a guard clause', 'E', _D, _G2 + _G3,
+      "\t\tloaded = (query_sigs, ref_sigs)\n\t\tfor sigs in loaded:\n\t\t\tif sigs is not None and sigs.kmerspec != kspec:\n"
+      "\t\t\t\traise click.ClickException(f'K-mer search parameters from command line options ({fmt_kspec(kspec)}) do not match those of signatures ({fmt_kspec(sigs.kmerspec)}).')\n"),
+    V('E: fall-back chain as nested conditional expressions', 'E', _D, _CHAIN, "\t\tkspec = query_sigs.kmerspec if query_sigs is not None else (DEFAULT_KMERSPEC if ref_sigs is None else ref_sigs.kmerspec)\n"),
+    V('conditional-expression fall-back forgets the reference signatures', 'B', _D, _CHAIN, "\t\tkspec = query_sigs.kmerspec if query_sigs is not None else DEFAULT_KMERSPEC\n", 'P1'),
+    V('E: kspec_from_params counts the missing options', 'E', _CM, _KFP, "\tnmissing = (k is None) + (prefix is None)\n\tif nmissing == 2:\n\t\tif default:\n\t\t\treturn DEFAULT_KMERSPEC\n\t\treturn None\n\n\tif nmissing == 1:\n"
+      "\t\traise click.ClickException('Must specify values for both -k and --prefix arguments.')\n"),
+    V('counted missing options: the error test is off by one (never true for exactly one)', 'B', _CM, _KFP, "\tnmissing = (k is None) + (prefix is None)\n\tif nmissing == 2:\n\t\tif default:\n\t\t\treturn DEFAULT_KMERSPEC\n\t\treturn None\n\n\tif nmissing > 1:\n"
+      "\t\traise click.ClickException('Must specify values for both -k and --prefix arguments.')\n", 'P3'),
+    V('counted missing options: default returned without being asked for', 'B', _CM, _KFP, "\tnmissing = (k is None) + (prefix is None)\n\tif nmissing == 2:\n\t\tif default is not None:\n\t\t\treturn DEFAULT_KMERSPEC\n\t\treturn None\n\n\tif nmissing == 1:\n"
+      "\t\traise click.ClickException('Must specify values for both -k and --prefix arguments.')\n", 'P3'),
+    V('E: result returned from the else clause of the try', 'E', _CM, "\t\traise click.ClickException(f'Invalid nucleotide codes in prefix: {prefix}')\n\n\treturn KmerSpec(k, prefix_bytes)\n",
+      "\t\traise click.ClickException(f'Invalid nucleotide codes in prefix: {prefix}')\n\telse:\n\t\treturn KmerSpec(k, prefix_bytes)\n"),
+    V('invalid prefix swallowed: the handler falls back to the default parameters', 'B', _CM, "\t\traise click.ClickException(f'Invalid nucleotide codes in prefix: {prefix}')\n\n\treturn KmerSpec(k, prefix_bytes)\n",
+      "\t\treturn DEFAULT_KMERSPEC\n\telse:\n\t\treturn KmerSpec(k, prefix_bytes)\n", 'P3'),
 ]
